@@ -137,6 +137,22 @@ theorem permIdx_spec (dB k : Nat) (hdB : 0 < dB) {σ : List Nat} (hσ : σ ∈ p
   have := digits_undigits dB (scatter σ (digits dB k (x % dB ^ k))) (scatter_lt dB hdB _ _ (digits_lt dB k _ hdB))
   rwa [length_scatter, perm_length (mem_perms.1 hσ)] at this
 
+/-- `rand_density_matrix(dim, k)`: the rank is at most `k` (the raw draw is `dim × k`) -/
+theorem density_matrix_rank_le (n k : Nat) (G : Nat → Nat → ℂ) : (toMat n n (densityMatrix n k G)).rank ≤ k :=
+  densityMatrix_rank_le n k G
+
+/-- `rand_choi_op`: the returned operator is `(1 ⊗ T)ᴴ (G Gᴴ) (1 ⊗ T)`, hence positive semidefinite (in particular Hermitian) for every `T`, `G`
+(`choi_valid` in `C10.lean` is the trace-preserving half) -/
+theorem choi_posSemidef (din dout r : Nat) (G T : Nat → Nat → ℂ) :
+    (toMat (din * dout) (din * dout) (choiOut din dout r G T)).PosSemidef := choiOut_posSemidef din dout r G T
+
+/-- `rand_hermitian_matrix(eig=(a,b))`: with `V` unitary (C01) and the uniform draws `a ≤ λ_i ≤ b`, `a·1 ≤ V diag(λ) Vᴴ ≤ b·1`: the spectrum lies in `[a, b]` -/
+theorem hermitian_eig_range (n : Nat) (V : Nat → Nat → ℂ) (lam : Nat → ℝ) (a b : ℝ) (hV : toMat n n V * (toMat n n V)ᴴ = 1)
+    (hl : ∀ i, i < n → a ≤ lam i ∧ lam i ≤ b) :
+    (toMat n n (hermEig n V fun i => (lam i : ℂ)) - (a : ℂ) • (1 : Matrix (Fin n) (Fin n) ℂ)).PosSemidef ∧
+      ((b : ℂ) • (1 : Matrix (Fin n) (Fin n) ℂ) - toMat n n (hermEig n V fun i => (lam i : ℂ))).PosSemidef :=
+  hermEig_range n V lam a b hV hl
+
 /-! non-vacuity of the hypotheses: the computational basis is a resolution; the identity is unitary -/
 example : IsRes 3 (compBasis (K := ℂ)) := isRes_compBasis 3
 example : scatter [1, 2, 0] [7, 8, 9] = [9, 7, 8] := by decide
